@@ -141,6 +141,8 @@ fn words_to_args(words: &[Value], vrec: &Path) -> Vec<OsString> {
             "none" | "unknown" | "missing" => {}
             // -fprintf FILE without its format: the first of two operands is there
             "missing1" => a.push(OsString::from("O/out")),
+            // an unknown primary followed by the name of an existing file
+            "unknown1" => a.push(OsString::from("F/a")),
             "exec" => {
                 for x in arr(&w["args"]) {
                     a.push(exec_word(x.as_str().unwrap_or(""), vrec));
@@ -325,6 +327,11 @@ fn gen_prim(rng: &mut Rng, action: bool, last: bool) -> Value {
         return json!({"k": "prim", "prim": "-fprintf", "kind": "action", "okind": "missing1"});
     }
     if rng.chance(1, 25) {
+        if rng.chance(1, 3) {
+            // an unknown word that merely contains the name of a -newerXY test, followed by what would be its operand
+            let p = *rng.pick(&["-newermmzz", "-xnewermm", "-newerac1", "-follow-newermm", "-neweramm"]);
+            return json!({"k": "prim", "prim": p, "kind": "test", "okind": "unknown1"});
+        }
         let p = *rng.pick(&["-foo", "-newerxm", "-newerzz", "-nam", "--print", "-Print", "-exe", "-size1k", "-é"]);
         return json!({"k": "prim", "prim": p, "kind": "test", "okind": "unknown"});
     }
@@ -357,7 +364,7 @@ fn gen_prim(rng: &mut Rng, action: bool, last: bool) -> Value {
     match rng.below(16) {
         0 => json!({"k": "prim", "prim": *rng.pick(&["-true", "-false", "-prune", "-empty", "-nouser", "-nogroup", "-readable", "-writable", "-executable", "-depth", "-daystart", "-xdev", "-noleaf", "-follow"]), "kind": "test", "okind": "none"}),
         1 => json!({"k": "prim", "prim": *rng.pick(&["-name", "-iname", "-path", "-ipath", "-lname", "-ilname", "-wholename"]), "kind": "test", "okind": "any",
-                    "arg": b(pick_bytes(rng, &[b"a", b"*", b"[a-z]*", b"s?b", b"*\xc3\xa9*"], &[b"[", b"[[:", b"[[:alpha:", b"a\\", b"[!", b"[a-", b"[[.", b"[[=a", b"[]", b"[[:x:]]", b"[[.a.]]", b"[z-a]"]))}),
+                    "arg": b(pick_bytes(rng, &[b"a", b"*", b"[a-z]*", b"s?b", b"*\xc3\xa9*", b"(", b")", b"!", b"-o", b",", b"-name", b"-print"], &[b"[", b"[[:", b"[[:alpha:", b"a\\", b"[!", b"[a-", b"[[.", b"[[=a", b"[]", b"[[:x:]]", b"[[.a.]]", b"[z-a]"]))}),
         2 | 3 => json!({"k": "prim", "prim": "-size", "kind": "test", "okind": "size",
                     "arg": b(pick_bytes(rng, &[b"1", b"+1k", b"-2M", b"0c", b"10w", b"1G", b"+0b"], &[b"1x", b"k", b"1kk", b"foo10k", b"+", b"1.5k", b"x1", b" 1", b"1 "]))}),
         4 => json!({"k": "prim", "prim": *rng.pick(&["-links", "-inum", "-uid", "-gid"]), "kind": "test", "okind": "num",
